@@ -15,9 +15,12 @@ if os.path.exists(f"{src}/notes.md"):
 r = subprocess.run(["/verif/tools/seeded.py", f"{dst}/patch.diff", "--demo", f"{dst}/demo.py", *checks.split(",")],
                    capture_output=True, text=True)
 res = json.loads(r.stdout)
+sys.path.insert(0, "/verif/tools")
+from confirm_tests import run as run_tests
+tests = run_tests(f"{dst}/patch.diff")
 meta = {"breaks_property": prop, "description": desc, "needs_to_manifest": needs,
         "origin": "independent sub-agent given only the property text and a scratch worktree of /repo",
-        "confirmed": {"tests_pass_with_patch": "1448 passed (sub-agent run; see notes.md)",
+        "confirmed": {"tests_pass_with_patch": tests + " (own run: tools/confirm_tests.py, scratch worktree under /tmp)",
                       "demo_exit_with_patch": res.get("demo_exit_with_patch"),
                       "demo_exit_clean_tree": res.get("demo_exit_clean")},
         "ran": f"tools/seeded.py seeded/{name}/patch.diff --demo seeded/{name}/demo.py {checks.replace(',', ' ')}",
@@ -27,4 +30,4 @@ meta = {"breaks_property": prop, "description": desc, "needs_to_manifest": needs
 if missed:
     meta["strengthening"] = missed
 json.dump(meta, open(f"{dst}/meta.json", "w"), indent=1)
-print(name, "caught_by", meta["caught_by"], "demo", res.get("demo_exit_with_patch"), res.get("demo_exit_clean"))
+print(name, tests.split(" in ")[0], "caught_by", meta["caught_by"], "demo", res.get("demo_exit_with_patch"), res.get("demo_exit_clean"))
